@@ -8,8 +8,8 @@
        TN   not applied, timeout              TA   APPLIED, but a timeout is reported
    What the request does when operation i fails is transcribed from the code, per code path (`path` of the program):
        doc                 db/crud.go updateAndReturnDoc / documentUpdateFunc
-       UpdatePrincipal     db/users.go UpdatePrincipal -> auth.Save   (as of /repo d57d9c7: sequence released on non-CAS, non-timeout Save errors)
-       casUpdatePrincipal  db/users.go DeleteRole(purge=false) -> auth.casUpdatePrincipal -> Save
+       UpdatePrincipal     db/users.go UpdatePrincipal -> auth.Save   (sequence released on non-CAS, non-timeout Save errors since /repo e753301)
+       casUpdatePrincipal  db/users.go DeleteRole(purge=false) -> auth.casUpdatePrincipal -> Save   (returns saveErr since /repo 627ed99)
        purgeRole           db/users.go DeleteRole(purge=true)
        deleteUser          auth.DeleteUser (email index document first, then the user document)
        session             auth/session.go CreateSession / DeleteSession / one-time session
@@ -43,7 +43,6 @@ VARIABLES p,          \* the program: [name, path, primary, clean, faultable, op
           dirty,      \* class -> number of applied effective writes of this request (the abstract bucket, relative to `pre`)
           took,       \* sequences reserved by this request
           given,      \* ... of which given back through unused-sequence notices
-          seqKnown,   \* the reserved sequence reached the outer scope (docSequence) - only then the error path releases it
           done,       \* program positions whose operation has succeeded at least once
           committed,  \* the commit operation was applied
           ta,         \* some operation was applied although a timeout was reported
@@ -55,7 +54,7 @@ VARIABLES p,          \* the program: [name, path, primary, clean, faultable, op
           pend,       \* reply to give once the release is through
           reply,      \* "none" until the request has answered
           hist
-impl  == <<pc, n, dirty, took, given, seqKnown, done, committed, ta, retried, relFault, prevSame, miss, mode, pend, reply>>
+impl  == <<pc, n, dirty, took, given, done, committed, ta, retried, relFault, prevSame, miss, mode, pend, reply>>
 vars  == <<p, flt, impl, hist>>
 view  == <<p, flt, impl>>
 
@@ -76,7 +75,7 @@ Policy(i) ==
   LET o == Ops[i] IN
   IF Phase(i) = "pre" THEN
        IF \/ ~W(o) /\ C(o) = "revbody"                 \* getNonWinningRevisionBody: a failed load yields "no body"
-          \/ W(o) /\ C(o) \in {"revbackup", "revbody"}  \* backupAncestorRevs: `_ =`; persistModifiedRevisionBodies: returns the wrong variable (nil)
+          \/ W(o) /\ C(o) = "revbackup"                  \* backupAncestorRevs: `_ =`   (persistModifiedRevisionBodies returns addErr since /repo b4eb819: abort)
           \/ W(o) /\ C(o) = "useremail"                 \* DeleteUser: email index delete is logged only
        THEN "ignore" ELSE "abort"
   ELSE IF W(o) /\ C(o) = "useremail" /\ p.path = "UpdatePrincipal" THEN "report"   \* Save: the email index Set error is returned after the user was written
@@ -95,20 +94,19 @@ KindsFor(i) == IF ~W(Ops[i]) THEN {"Err", "TN"} ELSE IF HasCas(Ops[i]) THEN Kind
 -----------------------------------------------------------------------------
 InitFor(prog) ==
   /\ p = prog /\ pc = 1 /\ n = 0 /\ flt = <<>> /\ dirty = [c \in Classes |-> 0] /\ took = 0 /\ given = 0
-  /\ seqKnown = FALSE /\ done = {} /\ committed = FALSE /\ ta = FALSE /\ retried = FALSE /\ relFault = FALSE /\ prevSame = TRUE /\ miss = FALSE
+  /\ done = {} /\ committed = FALSE /\ ta = FALSE /\ retried = FALSE /\ relFault = FALSE /\ prevSame = TRUE /\ miss = FALSE
   /\ mode = "run" /\ pend = "none" /\ reply = "none" /\ hist = <<>>
 
 Apply(i) == /\ dirty' = IF Effective(i) THEN [dirty EXCEPT ![C(Ops[i])] = @ + 1] ELSE dirty
             /\ took' = IF M(Ops[i]) = "Incr" /\ C(Ops[i]) = "seq" THEN took + 1 ELSE took
-NoApply == UNCHANGED <<dirty, took>>
+            /\ given' = IF Effective(i) /\ C(Ops[i]) = "unusedseq" THEN took ELSE given   \* a give-back that is part of the program itself (late rejection, lost CAS race)
+NoApply == UNCHANGED <<dirty, took, given>>
 
-(* leave the request through its error path: the document path gives back what it reserved - if it knows the number
-   (docSequence is set once documentUpdateFunc has returned successfully); UpdatePrincipal gives its sequence back on every
-   Save error that is not a timeout (and not a CAS mismatch, which retries); DeleteRole / DeleteUser give nothing back *)
+(* leave the request through its error path.  As of /repo b9f2215 every path that reserved a sequence gives it back unless the
+   error is a timeout (`if !base.IsTimeoutError(err)`: the write may have happened): updateAndReturnDoc (also for a sequence
+   assigned by the failing attempt itself - the deferred append in documentUpdateFunc), UpdatePrincipal, DeleteRole *)
 Leave(r) ==
-  IF /\ took' > given /\ r # "timeout"                                  \* `if !base.IsTimeoutError(err)`: after a timeout nothing is released
-     /\ \/ p.path = "doc" /\ seqKnown'
-        \/ p.path = "UpdatePrincipal"
+  IF took' > given' /\ r # "timeout"
   THEN /\ mode' = "release" /\ pend' = r /\ reply' = "none"
   ELSE /\ mode' = "end" /\ pend' = "none" /\ reply' = r
 
@@ -126,8 +124,7 @@ ImplOk(i, same) ==
   /\ prevSame' = same
   /\ n' = n + 1 /\ Apply(i) /\ done' = done \cup {i}
   /\ committed' = (committed \/ i = CommitIdx)
-  /\ seqKnown' = (seqKnown \/ i = CommitIdx)
-  /\ pc' = i + 1 /\ UNCHANGED <<given, ta, retried, relFault, miss, mode, pend, reply>>
+  /\ pc' = i + 1 /\ UNCHANGED <<ta, retried, relFault, miss, mode, pend, reply>>
 
 (* positions of the program the code does not issue: the SetRaw of a backup whose Touch did not say "not found"; backups and
    the clean-up of an external body when the body could not be loaded; and, on a retry after a CAS mismatch, operations that
@@ -138,7 +135,7 @@ Skippable(i) == \/ Guarded(i) /\ ~prevSame
                 \/ retried /\ Phase(i) = "pre" /\ i \in done /\ ~Guarded(i)
 ImplSkip(i) ==
   /\ mode = "run" /\ i \in 1..L /\ Skippable(i)
-  /\ pc' = i + 1 /\ UNCHANGED <<n, dirty, took, given, seqKnown, done, committed, ta, retried, relFault, prevSame, miss, mode, pend, reply>>
+  /\ pc' = i + 1 /\ UNCHANGED <<n, dirty, took, given, done, committed, ta, retried, relFault, prevSame, miss, mode, pend, reply>>
 
 (* operation i is issued and fails with kind k *)
 ImplFail(i, k) ==
@@ -148,9 +145,9 @@ ImplFail(i, k) ==
   /\ n' = n + 1
   /\ IF k = "TA" THEN Apply(i) /\ ta' = TRUE ELSE NoApply /\ ta' = ta
   /\ done' = IF k = "TA" THEN done \cup {i} ELSE done
-  /\ UNCHANGED <<given, relFault>>
+  /\ UNCHANGED relFault
   /\ IF i # CommitIdx
-     THEN /\ committed' = committed /\ seqKnown' = seqKnown
+     THEN /\ committed' = committed
           /\ IF k = "Cas" /\ M(Ops[i]) = "Update.write"
              THEN /\ pc' = RetryTarget(i) /\ retried' = TRUE /\ UNCHANGED <<mode, pend, reply>>    \* the store's own read-modify-write loop
              ELSE CASE Policy(i) = "ignore" -> /\ pc' \in (IF W(Ops[i]) THEN {i + 1} ELSE {i, i + 1})   \* a body that could not be loaded is loaded again by its next user - or not needed again
@@ -158,15 +155,12 @@ ImplFail(i, k) ==
                     [] Policy(i) = "report" -> /\ pc' = i /\ retried' = retried /\ Leave(FailReply(k))    \* ... and the sequence the stored user carries is released
                     [] OTHER                -> /\ pc' = i /\ retried' = retried /\ Leave(FailReply(k))
      ELSE \* ---- the commit operation
-          /\ seqKnown' = TRUE
           /\ committed' = (committed \/ k = "TA")
           /\ CASE k = "Cas" /\ p.path \in {"doc", "casUpdatePrincipal"} ->        \* reload and try again, same sequence
                     /\ pc' = RetryTarget(i) /\ retried' = TRUE /\ UNCHANGED <<mode, pend, reply>>
                [] k = "Cas" /\ p.path = "UpdatePrincipal" ->                        \* release, then everything again with a new sequence
                     /\ pc' = 1 /\ retried' = FALSE /\ mode' = "release" /\ pend' = "retry" /\ reply' = "none"
-               [] k # "Cas" /\ p.path = "casUpdatePrincipal" ->                     \* `return err` of the shadowed (nil) variable: success is reported
-                    /\ pc' = L + 1 /\ retried' = retried /\ mode' = "end" /\ pend' = "none" /\ reply' = "ok"
-               [] k \in {"TN", "TA"} /\ p.path # "casUpdatePrincipal" ->            \* a timeout: the write may have happened, nothing is released
+               [] k \in {"TN", "TA"} ->                                            \* a timeout: the write may have happened, nothing is released
                     /\ pc' = i /\ retried' = retried /\ mode' = "end" /\ pend' = "none" /\ reply' = "timeout"
                [] OTHER -> /\ pc' = i /\ retried' = retried /\ Leave("failed")    \* Err (or a CAS mismatch surfacing from a path without retry)
 
@@ -176,7 +170,7 @@ ImplFail(i, k) ==
 ImplExtraRead(ok, k) ==
   /\ mode = "run" /\ miss /\ (CommitIdx = 0 \/ pc <= CommitIdx)
   /\ n' = n + 1 /\ NoApply /\ prevSame' = FALSE
-  /\ UNCHANGED <<given, seqKnown, done, committed, ta, relFault, miss, retried, pc>>
+  /\ UNCHANGED <<done, committed, ta, relFault, miss, retried, pc>>
   /\ IF ok THEN UNCHANGED <<mode, pend, reply>> ELSE Leave(FailReply(k))
 
 (* the error path writes an unused-sequence notice for what was reserved (one write; it can fail too, which is only logged) *)
@@ -187,15 +181,15 @@ ImplRelease(ok, k) ==
   /\ relFault' = (relFault \/ ~ok)
   /\ dirty' = IF ok \/ k = "TA" THEN [dirty EXCEPT !["unusedseq"] = @ + 1] ELSE dirty
   /\ IF pend = "retry"
-     THEN /\ mode' = "run" /\ pend' = "none" /\ reply' = "none" /\ done' = {} /\ seqKnown' = FALSE
-     ELSE /\ mode' = "end" /\ pend' = "none" /\ reply' = pend /\ UNCHANGED <<done, seqKnown>>
+     THEN /\ mode' = "run" /\ pend' = "none" /\ reply' = "none" /\ done' = {}
+     ELSE /\ mode' = "end" /\ pend' = "none" /\ reply' = pend /\ UNCHANGED done
   /\ UNCHANGED <<pc, took, committed, ta, retried, prevSame, miss>>
 
 (* the program ran to its end: the answer of the fault-free run *)
 ImplReply ==
   /\ mode = "run" /\ pc = L + 1
   /\ mode' = "end" /\ reply' = p.clean
-  /\ UNCHANGED <<pc, n, dirty, took, given, seqKnown, done, committed, ta, retried, relFault, prevSame, miss, pend>>
+  /\ UNCHANGED <<pc, n, dirty, took, given, done, committed, ta, retried, relFault, prevSame, miss, pend>>
 
 Step(a, x) == hist' = Append(hist, [a |-> a, x |-> x])
 FaultsLeft == Len(flt) < MaxFaults /\ p.faultable        \* rejection kinds and the race scenario are run without faults
